@@ -64,6 +64,24 @@ CHECKS["C07"] = {
             "concurrent slot assignment under C15",
     "technique": "TLC-enumerated map families with canonical aggregate (MergeLaw invariant) replayed through all merge implementations",
 }
+CHECKS["C08"] = {
+    "text": "TimerStats.tla gives the statistics declaratively over exact integers/fractions and transcribes Flush's index arithmetic "
+            "with bounds predicates; TLC shows transcription = statement for every value bag up to the bound, 12 percentiles of both "
+            "signs, and every bucket-tag x limit; each case is fed to the real aggregator in seeded arrival order / batching and every "
+            "Timer field, the percentile list and the histogram are compared.",
+    "design_ref": "6/C08",
+    "note": "small integer values (rank/selection/case logic, not floating-point conditioning); both ranks accepted at an exact .5",
+    "technique": "TLC-enumerated value bags with declarative expected statistics replayed into MetricAggregator.Flush",
+}
+CHECKS["C09"] = {
+    "text": "Aggregator.tla keeps the statement's (last datapoint time, gone) bookkeeping next to the code-shaped map entries with "
+            "timestamps and Reset's expiry test; TLC shows equal reports for every history of datapoint / advance / flush up to the bound "
+            "under mixed negative / zero / positive expiries, and every history is replayed into the real aggregator under virtual time, "
+            "comparing the reported series set and values after every flush.",
+    "design_ref": "6/C09",
+    "note": "time advances in whole units so that now - T = expiry exactly is exercised; same-instant gauge datapoints may resolve either way",
+    "technique": "TLC-enumerated operation histories with per-flush expected reports replayed under testing/synctest virtual time",
+}
 NOT_APPLICABLE = [{"property_id": p, "reason": "check not built yet (build in progress; see DESIGN.md Appendix B for the order)"}
                   for p in ALL if p not in CHECKS]
 ENGINES[0]["serves_properties"] = sorted(CHECKS)
